@@ -110,7 +110,8 @@ ScopeOfV(M, Vt) ==
 \* reported value is that maximum
 RowChoice(M, t, Vn, row, tol) ==
   LET env == row.state @@ row.choice @@ ("_period" :> R(t))
-  IN IF \E n \in ChoiceNames(M) : ~IsOnGrid(VarRec(M, n), row.choice[n]) THEN "choice-off-grid"
+  IN IF ~\E c \in IdxSet(ChoiceSeq(M)) : Feasible(M, EnvAt(M, row.state, c, t)) THEN "SKIP:no-feasible-choice"
+     ELSE IF \E n \in ChoiceNames(M) : ~IsOnGrid(VarRec(M, n), row.choice[n]) THEN "choice-off-grid"
      ELSE IF ~PassAll(M, "filter", env) THEN "filter"
      ELSE IF ~PassAll(M, "constraint", env) THEN "constraint"
      ELSE LET best == FeasMax(M, t, Vn, row.state)
